@@ -968,3 +968,65 @@ func (e *OpEngine) RunResetChecks() {
 		}
 	}
 }
+
+// RunAccessorTotality: the accessors and predicates that are not tensor-producing operations (Gradient,
+// GradContext, NElems, Shape, Equals) return without panicking in every tracking state and for nil /
+// mismatched arguments.
+func (e *OpEngine) RunAccessorTotality() {
+	d := allAtoms("a", 2)
+	for _, name := range []string{"Gradient", "GradContext", "NElems", "Shape"} {
+		fn := e.method(name)
+		key := "cputensor.(*CPUTensor)." + name
+		if fn == nil {
+			e.undecided("anchor", key, "missing", "", name+" not found")
+			continue
+		}
+		for _, fc := range flagCombos {
+			for _, withGrad := range []bool{false, true} {
+				fc, withGrad := fc, withGrad
+				label := fmt.Sprintf("%s tracked=%v spent=%v gradient=%v", name, fc.tracked, fc.dirty, withGrad)
+				e.RunBody(key, label, 16, func() {
+					e.M.Base = sizeBase(d)
+					t := e.mkTensor("A", TensorArg{Dims: d, Tracked: fc.tracked, Dirty: fc.dirty})
+					if withGrad {
+						g, _ := e.W.GctxOf(t)
+						interp.Store(g.C.Fields[e.A.GGradient], e.W.Boxed(e.mkTensor("G", TensorArg{Dims: d})))
+					}
+					e.call(key, label, fn, []interp.Value{t})
+				})
+			}
+		}
+	}
+	if fn := e.method("Equals"); fn != nil {
+		key := "cputensor.(*CPUTensor).Equals"
+		for _, c := range []struct {
+			label string
+			arg   func() interp.Value
+			valid bool
+		}{
+			{"nil argument", func() interp.Value { return interp.NilV{} }, false},
+			{"rank mismatch", func() interp.Value { return e.W.Boxed(e.mkTensor("B", TensorArg{Dims: d[:1]})) }, false},
+			{"size mismatch", func() interp.Value {
+				return e.W.Boxed(e.mkTensor("B", TensorArg{Dims: []sym.Poly{d[0], sym.PAtom("other")}}))
+			}, false},
+		} {
+			c := c
+			label := "Equals " + c.label
+			e.RunBody(key, label, 64, func() {
+				e.M.Base = append(sizeBase(d), sym.CGe(sym.PAtom("other"), sym.PInt(2)))
+				t := e.mkTensor("A", TensorArg{Dims: d})
+				out, ok := e.call(key, label, fn, []interp.Value{t, c.arg()})
+				if !ok || len(out.Results) != 2 {
+					return
+				}
+				if c.label == "size mismatch" && e.M.Entailed(sym.IntCond(sym.CEq(sym.PAtom("other"), d[1]))) {
+					return
+				}
+				e.did("A4.pre", key)
+				if !isErrVal(out.Results[1]) {
+					e.find("A4.pre", key, "accepts-invalid", e.P.FuncPos(fn), "Equals accepts an invalid argument ("+c.label+")")
+				}
+			})
+		}
+	}
+}
